@@ -80,6 +80,14 @@ func (g *Gateway) GraphQLHandler(w http.ResponseWriter, r *http.Request) {
 	// the status code to report
 	statusCode := http.StatusOK
 
+	// the operations that are ready to be executed
+	type plannedOperation struct {
+		ctx   *RequestContext
+		plan  QueryPlanList
+		opNum int
+	}
+	planned := []plannedOperation{}
+
 	for opNum, operation := range operations {
 		// there might be a query plan cache key embedded in the operation
 		cacheKey := ""
@@ -119,8 +127,14 @@ func (g *Gateway) GraphQLHandler(w http.ResponseWriter, r *http.Request) {
 			return
 		}
 
+		// an operation that can not be planned fails the whole request, so nothing is executed (and no
+		// service is contacted) until every operation of the request has a plan
+		planned = append(planned, plannedOperation{requestContext, plan, opNum})
+	}
+
+	for _, operation := range planned {
 		opWg.Add(1)
-		go g.executeRequest(requestContext, plan, opWg, g.setResultFunc(opNum, results, opMutex))
+		go g.executeRequest(operation.ctx, operation.plan, opWg, g.setResultFunc(operation.opNum, results, opMutex))
 	}
 
 	opWg.Wait()
